@@ -34,7 +34,7 @@ na = [dict(property_id=k, reason=v) for k, v in sorted(NA.items()) if k not in p
 na += [dict(property_id=k, reason=v) for k, v in sorted(PENDING.items()) if k not in props.PROPS]
 m = dict(
     version=1,
-    setup_cmd="python3 vf/selftest.py --syntax",
+    setup_cmd="python3 vf/selftest.py --syntax --alarm",
     hooks=dict(guard="none", enable="no hooks: both engines rebuild their input from /repo's working tree in a scratch directory on every run", baseline_off_cmd="cd /repo && cargo test --workspace --no-fail-fast --offline", source_commits=[], add_only=True),
     engines=[
         dict(name="verus", path="/verif/vf", serves_properties=[p for p in sorted(props.PROPS) if props.PROPS[p].get("v_units")], kind_free_text="Verus 0.2026.09.13 / Z3 on one generated file per planner unit: prelude (trait contracts, stubs, axioms) + real source text after rewrite rules R1-R16 + spliced annotations"),
